@@ -324,6 +324,7 @@ pub fn check(ctx: &mut Ctx, which: &'static str) {
         ctx.rule = "cases as for C07 (same enumeration, 24 delimiter pairs incl. all pairs named in the property). Oracle: tag-token byte spans == spans of the textbook left-to-right scan (leftmost start delimiter, one body character, first end delimiter after it), text tokens == the gaps. Non-trivial = the string contains a failed partial delimiter match (first delimiter character not followed by the whole delimiter) or at least two delimiter occurrences.".into();
     }
     ctx.assume("start and end delimiter are non-empty (the property's own precondition)");
+    ctx.require_class(if is07 { "last-char-multibyte" } else { "occurrence-begins-inside-failed-partial-match" });
     ctx.replay_corpus(|sub, case, obs| replay(which, sub, case, obs));
     let budget = ctx.tier.pick(6_000_000u64, 60_000_000u64);
     let units = exhaustive_units(true, budget);
